@@ -5,6 +5,7 @@ import (
 	"fmt"
 	"sort"
 	"strings"
+	"sync/atomic"
 	"testing"
 	"time"
 
@@ -189,7 +190,7 @@ func genD(t *rapid.T) hcfg.D {
 	return d
 }
 
-var mutants = []string{"unknown-top-field", "unknown-schedule-field", "unknown-kubernetes-field", "unknown-validating-field", "onStartup-string", "schedule-object", "allowFailure-string", "bad-crontab", "include-unknown", "include-ambiguous", "selector-operator", "version-v2", "missing-kind", "missing-crontab", "missing-validating-name", "bad-interval", "bad-watch-event", "bad-field-operator", "validating-name-not-qualified", "duplicate-validating-name", "empty-schedule-list", "empty-includes"}
+var mutants = []string{"zero-step-crontab", "unknown-top-field", "unknown-schedule-field", "unknown-kubernetes-field", "unknown-validating-field", "onStartup-string", "schedule-object", "allowFailure-string", "bad-crontab", "include-unknown", "include-ambiguous", "selector-operator", "version-v2", "missing-kind", "missing-crontab", "missing-validating-name", "bad-interval", "bad-watch-event", "bad-field-operator", "validating-name-not-qualified", "duplicate-validating-name", "empty-schedule-list", "empty-includes"}
 
 func gen(t *rapid.T) Case {
 	c := Case{D: genD(t)}
@@ -247,6 +248,12 @@ func mutate(m map[string]any, mutant string) bool {
 			return false
 		}
 		s["crontab"] = "every minute"
+	case "zero-step-crontab":
+		s, ok := first(m, "schedule")
+		if !ok {
+			return false
+		}
+		s["crontab"] = "*/0 * * * *"
 	case "include-unknown":
 		s, ok := first(m, "schedule")
 		if !ok {
@@ -519,17 +526,41 @@ func expected(d hcfg.D) map[string]any {
 	return out
 }
 
-func load(text []byte) (cfg *config.HookConfig, err error) {
-	defer func() {
-		if r := recover(); r != nil {
-			err = fmt.Errorf("PANIC: %v", r)
-		}
-	}()
-	cfg = &config.HookConfig{}
-	if e := cfg.LoadAndValidate(text); e != nil {
-		return nil, e
+var hung atomic.Int32
+
+// load runs LoadAndValidate with a watchdog: a call that does not return within 3 s is reported as HANG
+// (its goroutine keeps spinning, so only a few hangs are tolerated per process).
+func load(text []byte) (*config.HookConfig, error) {
+	if hung.Load() >= 3 {
+		return nil, fmt.Errorf("HANG: earlier calls of LoadAndValidate in this process never returned")
 	}
-	return cfg, nil
+	type res struct {
+		cfg *config.HookConfig
+		err error
+	}
+	ch := make(chan res, 1)
+	go func() {
+		var r res
+		defer func() {
+			if p := recover(); p != nil {
+				r = res{nil, fmt.Errorf("PANIC: %v", p)}
+			}
+			ch <- r
+		}()
+		cfg := &config.HookConfig{}
+		if e := cfg.LoadAndValidate(text); e != nil {
+			r = res{nil, e}
+			return
+		}
+		r = res{cfg, nil}
+	}()
+	select {
+	case r := <-ch:
+		return r.cfg, r.err
+	case <-time.After(3 * time.Second):
+		hung.Add(1)
+		return nil, fmt.Errorf("HANG: LoadAndValidate did not return within 3s")
+	}
 }
 
 func diffJSON(a, b string) string {
@@ -574,8 +605,8 @@ func runCase(c Case) (ev.Info, error) {
 			if err == nil {
 				return info, fmt.Errorf("invalid configuration (%s, %s) was loaded without error:\n%s", c.Mutant, name, text)
 			}
-			if strings.HasPrefix(err.Error(), "PANIC") {
-				return info, fmt.Errorf("loading panics (%s, %s): %v\n%s", c.Mutant, name, err, text)
+			if strings.HasPrefix(err.Error(), "PANIC") || strings.HasPrefix(err.Error(), "HANG") {
+				return info, fmt.Errorf("loading does not end cleanly (%s, %s): %v\n%s", c.Mutant, name, err, text)
 			}
 		}
 		return info, nil
@@ -625,7 +656,7 @@ type BytesCase struct {
 	Text string `json:"text"`
 }
 
-var tokens = []string{"configVersion", "v1", "v0", ":", " ", "\n", "- ", "{", "}", "[", "]", ",", "\"", "onStartup", "schedule", "kubernetes", "crontab", "* * * * *", "kind", "Pod", "name", "includeSnapshotsFrom", "group", "queue", "null", "true", "1", "-1", "1e999", "settings", "executionMinInterval", "executionBurst", "kubernetesValidating", "rules", "&a", "*a", "!!binary", "|", ">", "---", "\t", "jqFilter", "namespace", "nameSelector", "matchNames", "labelSelector", "matchExpressions", "operator", "In", "values", "onKubernetesEvent", "event", "add"}
+var tokens = []string{"configVersion", "v1", "v0", ":", " ", "\n", "- ", "{", "}", "[", "]", ",", "\"", "onStartup", "schedule", "kubernetes", "crontab", "* * * * *", "kind", "Pod", "name", "includeSnapshotsFrom", "group", "queue", "null", "true", "1", "-1", "1e999", "*/0 * * * *", "0", "/", "-", "*", "settings", "executionMinInterval", "executionBurst", "kubernetesValidating", "rules", "&a", "*a", "!!binary", "|", ">", "---", "\t", "jqFilter", "namespace", "nameSelector", "matchNames", "labelSelector", "matchExpressions", "operator", "In", "values", "onKubernetesEvent", "event", "add"}
 
 func genBytes(t *rapid.T) BytesCase {
 	switch rapid.IntRange(0, 2).Draw(t, "mode") {
@@ -665,8 +696,8 @@ func genBytes(t *rapid.T) BytesCase {
 func runBytes(c BytesCase) (ev.Info, error) {
 	info := ev.Info{}
 	cfg, err := load([]byte(c.Text))
-	if err != nil && strings.HasPrefix(err.Error(), "PANIC") {
-		return info, fmt.Errorf("LoadAndValidate panics on %q: %v", c.Text, err)
+	if err != nil && (strings.HasPrefix(err.Error(), "PANIC") || strings.HasPrefix(err.Error(), "HANG")) {
+		return info, fmt.Errorf("LoadAndValidate does not end cleanly on %q: %v", c.Text, err)
 	}
 	if err == nil {
 		info.Labels = append(info.Labels, "loaded")
@@ -686,5 +717,5 @@ func runBytes(c BytesCase) (ev.Info, error) {
 const ruleBytes = "arbitrary byte strings (random bytes, random sequences of configuration tokens, 1-4 byte/token mutations of valid generated documents) given to LoadAndValidate: never panics, returns an error or a configuration of a known version whose bindings can be traversed. Non-trivial: loaded, or rejected with more than 8 bytes."
 
 func TestBytes(t *testing.T) {
-	ev.Main(t, ev.Spec[BytesCase]{Property: "C10", Part: "bytes", Rule: ruleBytes, Gen: genBytes, Run: runBytes})
+	ev.Main(t, ev.Spec[BytesCase]{Property: "C10", Part: "bytes", Rule: ruleBytes, Gen: genBytes, Run: runBytes, Journal: true})
 }
